@@ -51,6 +51,25 @@ CLAIMED = {
         '(it is what the sweep tests); configurations using the process-global NumPy generator (Births) are excluded here and covered by C01.',
    technique='Coq resume-algebra proof over an abstract step function + exhaustive boundary/restore-mode sweep against the real sim',
    design='5 C09'),
+ 'C10': dict(
+   text='Coq theorems over ALL histories of births (arbitrary slots), death requests, death resolution, removal, time steps and late state registration: '
+        'dense never-reused identifiers, alignment of every registered array with the id space across reallocation boundaries, duplicate-free active set, '
+        'growth preserves old values and applies defaults, death permanence, same-step / next-step execution of death requests, deaths balance; the '
+        'late-request accounting gap is proved as a refutation witness. Growth arithmetic and the death-due comparison are regenerated from arrays.py/people.py; '
+        'op sequences on a real People are compared with the model in Coq (outputs + full snapshot), and every step of real runs is probed.',
+   note='Trusted: Coq kernel, translator (expression targets + shape pins), harness. NaN is modelled by a sentinel rational (nan_free hypothesis in the timing theorems). '
+        'Only the 5 attached arrays + core arrays are snapshotted in the op-level tie; all registered states are checked for alignment by the run-level probe.',
+   technique='Coq invariant proof over operation histories of the People model + in-Coq differential evaluation + run-level probe',
+   design='5 C10'),
+ 'C11': dict(
+   text='Coq theorems: refinement of agent arrays to a uid-indexed map restricted to the active list (writes by uid, active view, derived arrays define exactly '
+        'the active cells, comparison uids = filter, true/false partition, ~ swaps, uid-set algebra = set operations with sorted duplicate-free results, growth); '
+        'the integer-index clause is refuted by a witness (raw indexing). Array-heavy op sequences with all key kinds on real FloatArr/BoolArr/State are compared '
+        'with the model in Coq; a dict-based reference map is replayed next to the real arrays.',
+   note='Trusted: Coq kernel, translator shape pins on _convert_key and the dunders, harness. Uninitialised memory is a distinct model constructor (G); '
+        'float32 storage is avoided in the tie by using dyadic values.',
+   technique='Coq refinement proof (array -> finite map) + in-Coq differential evaluation of operation sequences',
+   design='5 C11'),
 }
 
 checks = []
